@@ -51,6 +51,13 @@ pub enum Op {
         same_buffer: bool,
     },
     Switch,
+    /// the switch happens while the caller already holds bytes it read ahead of it (a client that
+    /// pipelines behind its Encryption Response): they are decrypted in place with `decrypt_buffered`
+    SwitchAhead {
+        #[serde(with = "hexser")]
+        ahead: Vec<u8>,
+        buf: usize,
+    },
     Read {
         chunks: Vec<RChunk>,
         /// read buffer size per poll (cycled)
@@ -167,6 +174,36 @@ pub fn run_unit(sc: &UnitSc) -> RunReport {
                 wswitch = Some(plain_written.len());
                 rswitch = Some(surfaced.len());
                 trace.write_str("switch");
+            }
+            Op::SwitchAhead { ahead, buf } => {
+                if wswitch.is_some() || ahead.is_empty() {
+                    continue;
+                }
+                // the bytes come off the transport while the stream is still in plaintext mode
+                ts.borrow_mut().rq = vec![(0u8, ahead.clone(), 0usize)].into();
+                let mut held: Vec<u8> = vec![];
+                let mut polls = 0;
+                while !ts.borrow().rq.is_empty() && polls < 4096 {
+                    polls += 1;
+                    let mut storage = vec![0u8; (*buf).max(1)];
+                    let mut rb = ReadBuf::new(&mut storage);
+                    if let Poll::Ready(Ok(())) = Pin::new(&mut cs).poll_read(&mut cx, &mut rb) {
+                        held.extend_from_slice(rb.filled());
+                    }
+                }
+                let Ok((e, d)) = create_ciphers(&sc.secret) else {
+                    rep.violate("cipher_creation", "create_ciphers failed for a 16-byte secret".into());
+                    return rep;
+                };
+                wswitch = Some(plain_written.len());
+                rswitch = Some(surfaced.len());
+                cs.set_encryption(Some(e), Some(d));
+                cs.decrypt_buffered(&mut held);
+                surfaced.extend_from_slice(&held);
+                faults_after_switch = true;
+                *rep.faults.entry("bytes_read_ahead_of_the_switch".into()).or_insert(0) += 1;
+                trace.write_str("switch_ahead");
+                trace.write_u64(ahead.len() as u64);
             }
             Op::Write { data, tw, retry_other, same_buffer } => {
                 ts.borrow_mut().wq = tw.clone().into();
@@ -328,7 +365,12 @@ fn gen_unit(rng: &mut Rng) -> UnitSc {
     let switch_at = rng.below(nops);
     for i in 0..nops {
         if i == switch_at {
-            ops.push(Op::Switch);
+            if rng.chance(1, 3) {
+                let l = *rng.pick(&[1usize, 2, 15, 16, 17, 40, 300]);
+                ops.push(Op::SwitchAhead { ahead: rng.bytes(l), buf: *rng.pick(&[1usize, 7, 16, 64, 1024]) });
+            } else {
+                ops.push(Op::Switch);
+            }
         }
         if rng.chance(2, 3) {
             let len = *rng.pick(&[1usize, 2, 3, 7, 15, 16, 17, 31, 32, 33, 100, 300]);
@@ -417,6 +459,14 @@ fn gen_conn(rng: &mut Rng) -> ConnScenario {
             spurious: rng.below(3) as u8,
         });
     }
+    // a client that pipelines Login Acknowledged (and Client Information) behind its Encryption Response, in one segment
+    if rng.chance(1, 3) {
+        client.early_ack = true;
+        client.coalesce = true;
+        if rng.chance(1, 2) {
+            client.info_delay_ns = 0;
+        }
+    }
     ConnScenario {
         seed: rng.next_u64(),
         cfg: ConnCfg {
@@ -470,6 +520,14 @@ impl Check for C05 {
         match sc {
             C05Sc::Unit(u) => run_unit(u),
             C05Sc::Conn(c) => {
+                // outside this check's domain (shrinking may propose such scenarios): anything but an honest, complete login
+                let cl = &c.client;
+                if !super::common::conn_domain_ok(c) || !matches!(cl.intent, 2 | 3) || cl.script.is_some() || !cl.mutations.is_empty() || !matches!(cl.enc, crate::client::EncVariant::Honest) || !cl.send_info
+                    || cl.close_after.is_some() || cl.mute_after.is_some() || cl.shared_secret.len() != 16 || cl.protocol <= 0 || !matches!(cl.ka_default, crate::client::KaPolicy::Prompt) || !cl.ka.is_empty()
+                    || c.services.discovery.default.lat_ns != Some(0) || !c.services.discovery.calls.is_empty() || !matches!(&c.services.discovery.default.res, DiscRes::Targets(t) if !t.is_empty())
+                {
+                    return RunReport::default();
+                }
                 let out = run_conn(c);
                 let mut rep = RunReport {
                     runs: 1,
@@ -479,7 +537,11 @@ impl Check for C05 {
                     ..Default::default()
                 };
                 rep.merge_counts(&out.faults, &out.probes);
-                rep.nontrivial = out.faults.contains_key("write_partial_accept")
+                if c.client.early_ack {
+                    *rep.faults.entry("client_pipelines_behind_encryption_response".into()).or_insert(0) += 1;
+                }
+                rep.nontrivial = c.client.early_ack
+                    || out.faults.contains_key("write_partial_accept")
                     || out.faults.contains_key("write_pending_delay")
                     || out.faults.contains_key("write_spurious_pending");
                 if let Some(u) = &out.view.undecodable {
